@@ -84,7 +84,21 @@ func strConverter(dec *Decoder, o interface{}, p interface{}) {
 }
 
 func assignTo(dec *Decoder, o interface{}, p interface{}) {
-	reflect.ValueOf(p).Elem().Set(reflect.ValueOf(o))
+	v := reflect.ValueOf(o)
+	// the reference table holds a list or a map by the address of the variable it was read
+	// into: what an interface{} gets is the list or the map itself, as when the item is
+	// written out in full - not a pointer to it
+	if v.Kind() == reflect.Ptr && !v.IsNil() {
+		switch v.Elem().Kind() {
+		case reflect.Slice, reflect.Map:
+			v = v.Elem()
+		case reflect.Struct:
+			if dec.StructType == StructTypeValue {
+				v = v.Elem()
+			}
+		}
+	}
+	reflect.ValueOf(p).Elem().Set(v)
 }
 
 func ptrCopy(dec *Decoder, o interface{}, p interface{}) {
